@@ -21,6 +21,7 @@
 #define TBOX_NETWORK_DNS_REQUEST_H_20230207
 
 #include <map>
+#include <set>
 #include <tbox/event/loop.h>
 #include <tbox/eventx/timeout_monitor.hpp>
 
@@ -89,7 +90,7 @@ class DnsRequest {
   protected:
     struct Request {
         Callback cb;
-        size_t response_count = 0;
+        std::set<uint32_t> fail_dns_ips;    //!< 已回复失败的DNS服务器
     };
 
     void init();
